@@ -141,6 +141,8 @@ def census(F, bodies=None, inline=None, site_overrides=None, include_unsafe_fns=
             continue
         if b.unsafe and not include_unsafe_fns:
             continue
+        if b.path in getattr(F, "new_helpers_inlined", ()):
+            continue      # a helper the reference tree does not have: analysed where it is inlined (its callers)
 
         def on_node(W, n, K, b=b):
             if not n.get("cu"):
